@@ -390,7 +390,7 @@ def check_raw_buffer_reads(eng, run, rule="C10.flow"):
                     run.finding(rule, fn, _line_stmt(fn, sub.lineno), f"`{ast.unparse(sub)}` addresses the raw receive buffer outside `[:{level_a}]`: it reads (or moves) bytes beyond the fill level - "
                                 "stale or zero bytes take the place of received data")
                 run.ob(rule, f"{fn.short}:{ast.unparse(sub)[:50]}", ok)
-    run.floor(f"{rule} raw receive-buffer subscripts", n, 3)
+    run.floor(f"{rule} raw receive-buffer subscripts", n, 1)
 
 
 def check_conservation(eng, run, rule="C10.flow"):
@@ -423,12 +423,16 @@ def check_conservation(eng, run, rule="C10.flow"):
                 run.ob(rule, f"{fn.short}:byte-conservation", True, evaluated=False, reason="too many paths")
                 continue
             bad = [(p, why) for v, p, why in res if v == "violated"]
+            negs = sorted({why for v, p, why in res if v == "negslice"})
+            for why in negs[:1]:
+                run.finding(rule, fn, fn.node, f"{why}: for 0 the slice `x[-0:]` is the whole buffer, not an empty tail - the exact-fit case raises ValueError (or copies the wrong bytes) and the fill level is left inconsistent")
+            bad = bad + [(None, w) for w in negs][:0]
             und = [why for v, p, why in res if v == "undecided"]
             n_paths += sum(1 for v, _, _ in res if v in ("ok", "no-effect"))
             for p_, why in bad[:1]:
                 run.finding(rule, fn, fn.node, f"bytes are not conserved on a path that copies data out of the internal receive buffer: {why} - "
                             "bytes of the stream are dropped or delivered twice, depending on the sizes of the caller's buffer and of the backlog")
-            run.ob(rule, f"{fn.short}:byte-conservation", not bad, decided_paths=sum(1 for v, _, _ in res if v != "undecided"), undecided=und)
+            run.ob(rule, f"{fn.short}:byte-conservation", not bad and not negs, decided_paths=sum(1 for v, _, _ in res if v != "undecided"), undecided=und)
     run.floor(f"{rule} copy-out functions", n_fn, 2)
     run.floor(f"{rule} copy-out paths decided", n_paths, 6)
 
@@ -796,4 +800,10 @@ MUTANTS += [
 BENIGN += [
     Variant("copy-out-level-decremented-by-the-copied-amount", _RDI, lambda fn: replace_stmt(fn, stmt_is("self.__buffer_nbytes_written = bufsize_offset"), "self.__buffer_nbytes_written -= nbytes_written"),
             why="same level written as a decrement by the amount just copied"),
+]
+
+
+MUTANTS += [
+    Variant("copy-out-shift-branch-taken-for-an-exact-fit", _RDI, lambda fn: replace_expr(fn, "bufsize_offset > 0", "bufsize_offset >= 0"), "C10.flow",
+            why="exact fit: `view[:0] = view[-0:]` raises ValueError and the level is never reset (seed C15-9)"),
 ]
